@@ -16,8 +16,9 @@ Inductive sea_obs :=
 
 Record xt := mkXT {
   xt_sea : sea_obs;
-  xt_sa : list string;       (* non-empty lines of the SQLAlchemy output before the first class *)
-  xt_sm : list string;       (* same for SQLModel *)
+  xt_sa : list (list string);   (* non-empty lines of the SQLAlchemy output before the first class: every DISTINCT
+                                   block seen over the repeated renders of this table *)
+  xt_sm : list (list string);   (* same for SQLModel *)
   xt_pyclass : string }.     (* name of the table class in the SQLAlchemy output *)
 
 Record exp_case := mkXC { x_schema : schema; x_obs : list xt }.
@@ -30,7 +31,11 @@ Definition sea_check (s : schema) (t : table_def) (o : sea_obs) : bool :=
   | _, _ => false
   end.
 
-Definition imports_check (model impl : list string) : bool := list_eqb import_line_eqb model impl.
+(* every line is compared as text, order of the imported names included; only the datetime line (the one place
+   HashSites marks iterated-unsorted) is compared as a set.  All observed variants must agree with the model,
+   and at least one must have been observed. *)
+Definition imports_check (model : list string) (impl : list (list string)) : bool :=
+  (negb (Nat.eqb (List.length impl) 0) && forallb (list_eqb import_line_eqb model) impl)%bool.
 
 Definition ascii_only (s : string) : bool := all_chars (fun a => negb (non_ascii a)) s.
 
